@@ -24,7 +24,9 @@ func init() {
 			ruleQoSPartition(r, "R7")
 			ruleC03R8(r)
 			ruleGoroutinesOutliveRequestCtx(r, "R10", "/iscp", "/wire")
+			ruleC03R11(r)
 			le03 := newLockEngine(r.P)
+			ruleNoReentrantLock(r, le03, "R12", "/iscp")
 			ruleLockPairingFor(r, le03, "R9", "the read path never wedges on the stream mutex: every function of iscp.Downstream that takes a lock releases it on every path (an unknown alias reported as an error must not leave the mutex held)", func(fn *ssa.Function) bool {
 				return fnPkgPath(fn) == modPath+"/iscp" && recvTypeName(topFunc(fn)) == "Downstream" && (le03.Info(fn).Events > 0 || len(le03.Info(fn).Reports) > 0)
 			}, 5)
@@ -450,5 +452,39 @@ func ruleC03R8(r *Run) {
 			okc := (isUn && unrel[fk]) || (!isUn && rel[fk])
 			r.Check(name+" touches "+fk, okc, posOf(p, fa), name, fmt.Sprintf("function of the %s class uses %s", map[bool]string{true: "unreliable", false: "reliable"}[isUn], fk))
 		})
+	}
+}
+
+// ruleC03R11: what is retried is complete. Conn.send re-runs its function on the next wire connection after a lost
+// one, and resume retries on a conflict; subscriptions live in the wire connection they were made on. The unit that
+// sends a downstream open or resume request therefore also makes the three subscriptions of the alias — hoisted in
+// front of the retry they stay on the dead connection and every chunk of the successfully opened stream is dropped.
+func ruleC03R11(r *Run) {
+	r.Begin("R11", "the retried unit subscribes: every function literal of package iscp handed to Conn.send or retry.Do that reaches SendDownstreamOpenRequest or SendDownstreamResumeRequest also reaches SubscribeDownstreamChunk, SubscribeDownstreamChunkAckComplete and SubscribeDownstreamMeta", 2)
+	p := r.P
+	subs := []string{"/wire.ClientConn.SubscribeDownstreamChunk", "/wire.ClientConn.SubscribeDownstreamChunkAckComplete", "/wire.ClientConn.SubscribeDownstreamMeta"}
+	n := 0
+	for _, site := range p.moduleCalls("/iscp.Conn.send", "/internal/retry.Do", "/internal/retry.Retry.Do") {
+		if fnPkgPath(site.Parent()) != modPath+"/iscp" {
+			continue
+		}
+		for _, a := range instrCall(site).Args {
+			unit := closureOf(a)
+			if unit == nil || !p.reachesCall(unit, 3, "/wire.ClientConn.SendDownstreamOpenRequest", "/wire.ClientConn.SendDownstreamResumeRequest") {
+				continue
+			}
+			n++
+			name := fnName(unit)
+			missing := ""
+			for _, sb := range subs {
+				if !p.reachesCall(unit, 3, sb) {
+					missing += " " + sb[strings.LastIndexByte(sb, '.')+1:]
+				}
+			}
+			r.Check(name+" subscribes in the retried unit", missing == "", posOf(p, site), name, "the function literal that sends the request does not make these subscriptions:"+missing+" — when it is run again on a new wire connection the alias has no subscriber there")
+		}
+	}
+	if n == 0 {
+		r.Undecided("downstream open/resume requests", "no retried unit sends them")
 	}
 }
